@@ -2376,7 +2376,13 @@ impl<'s> Semantics<'s> {
             let block = control_flow_graph.new_block()?;
 
             let src = self.operand_load(block, &detail.operands[1])?;
-            let value = Expr::sext((detail.operands[0].size as usize) * 8, src)?;
+            let dst_bits = (detail.operands[0].size as usize) * 8;
+            // `movsx r16, r/m16` (operand-size prefix) is a plain move
+            let value = if src.bits() == dst_bits {
+                src
+            } else {
+                Expr::sext(dst_bits, src)?
+            };
 
             self.operand_store(block, &detail.operands[0], value)?;
 
@@ -2396,7 +2402,14 @@ impl<'s> Semantics<'s> {
             let block = control_flow_graph.new_block()?;
 
             let src = self.operand_load(block, &detail.operands[1])?;
-            let value = Expr::zext((detail.operands[0].size as usize) * 8, src)?;
+            let dst_bits = (detail.operands[0].size as usize) * 8;
+            // `movzx r16, r/m16` (operand-size prefix) is a plain move, and
+            // `movd r/m32, xmm` takes the low doubleword of the register
+            let value = match src.bits().cmp(&dst_bits) {
+                std::cmp::Ordering::Less => Expr::zext(dst_bits, src)?,
+                std::cmp::Ordering::Equal => src,
+                std::cmp::Ordering::Greater => Expr::trun(dst_bits, src)?,
+            };
 
             self.operand_store(block, &detail.operands[0], value)?;
 
